@@ -32,18 +32,18 @@ const (
 // the function that *contains* the characteristic instruction — a helper or
 // TaskRunner.Run itself when the helper was inlined.
 type runnerRoles struct {
-	c       *an.Ctx
-	p       *an.Prog
-	run     *ssa.Function
-	cancel  *ssa.Function
-	finish  *ssa.Function
-	task    *ssa.Parameter // Run's task
-	scope   []*ssa.Function // pkg/runner functions reachable from Run (Run included)
-	execute *ssa.Function   // contains the job walk
-	jobLoop *an.Loop
-	ctxFn   *ssa.Function // contains the call of ExecutionContext.Up
-	store   *ssa.Function // contains Set on TaskRunner.env
-	compileCall   *ssa.Call // the CompileTask call
+	c             *an.Ctx
+	p             *an.Prog
+	run           *ssa.Function
+	cancel        *ssa.Function
+	finish        *ssa.Function
+	task          *ssa.Parameter  // Run's task
+	scope         []*ssa.Function // pkg/runner functions reachable from Run (Run included)
+	execute       *ssa.Function   // contains the job walk
+	jobLoop       *an.Loop
+	ctxFn         *ssa.Function // contains the call of ExecutionContext.Up
+	store         *ssa.Function // contains Set on TaskRunner.env
+	compileCall   *ssa.Call     // the CompileTask call
 	newOutputCall *ssa.Call
 	startCall     *ssa.Call
 	ok            bool
